@@ -51,3 +51,46 @@ PROPS["C03"]["groups"] += [
      "specs": [spec("C03/agg/regex=%s/notRegex=%s" % (r, n), "VerifC03Agg", {"regex": r, "notRegex": n}) for r, n in C03_AGG if r] +
               [spec("C03/cache/regex=%s" % r, "VerifC03Cache", {"regex": r}) for r in ["^a(b|c)", "b"]]},
 ]
+
+PROPS["C18"] = {
+    "bounds": "tables with 1..3 entries per list (routes, blacklist, rewriters, aggregations), histories of 1..2 admin operations with free index/key (incl. unknown key, index beyond the end); routes with 1..3 destinations",
+    "outside": "instruction-level interleavings and memory-model effects: the property is reduced to snapshot immutability + single snapshot load per dispatch + model-list equality (DESIGN.md C18)",
+    "assumptions": ["copy-on-write reduction: if a published snapshot is never modified and each dispatch loads exactly one snapshot, any interleaving equals the change happening before or after the dispatch"],
+    "groups": [
+        {"pkg": "table", "hdir": "table", "specs": [spec("C18/table", "VerifC18Table"), spec("C18/readers", "VerifC18Readers")]},
+        {"pkg": "route", "hdir": "route", "specs": [spec("C18/route", "VerifC18Route")]},
+    ],
+}
+
+PROPS["C02"] = {
+    "bounds": "arbitrary ASCII byte strings of 0..5 bytes as the line (quick) and arbitrary bytes (all 256 values) of 0..3 bytes (thorough) x all 3x2 configured validation levels; level names: all spellings of up to 3 bytes plus the documented ones",
+    "outside": "numeric spellings accepted by strconv.ParseFloat (modelled: digit strings exactly, everything else an uninterpreted validity predicate); TOML decoding of the level strings; lines longer than the bound",
+    "assumptions": ["oracle for 'passes validation' is carbon20.ValidatePacket called by the harness with the levels the harness configured (the gate must use exactly the configured levels)", "strconv.ParseFloat: exact on 1..15 digit strings, uninterpreted otherwise"],
+    "groups": [
+        {"pkg": "table", "hdir": "table", "specs": [
+            spec("C02/gate/ascii<=5", "VerifC02Gate", {"ascii": "1", "maxlen": "xxxxx"}),
+            spec("C02/gate/bytes<=2", "VerifC02Gate", {"ascii": "0", "maxlen": "xx"}, tier="thorough"),
+            spec("C02/gate/ascii<=6", "VerifC02Gate", {"ascii": "1", "maxlen": "xxxxxx"}, tier="thorough"),
+            spec("C02/levels", "VerifC02Levels")]},
+    ],
+}
+
+PROPS["C05"] = {
+    "bounds": "buffered writer: buffer size S in 1..3 (thorough 1..5), arbitrary fill and content, one Write of 0..2S+2 symbolic bytes or one Flush from that arbitrary state (one-step induction), underlying writer accepting any prefix per call; connection writer: 1..3 lines of 1..3 symbolic bytes, a flush tick before any line, S in 1..3",
+    "outside": "the kernel socket (the stub is the io.Writer contract); pickle encoding content (C16); S beyond the bound (no size-dependent branch other than the comparisons ranged over)",
+    "assumptions": ["io.Writer contract for the underlying connection: 0<=n<=len(p), n<len(p) => err!=nil", "go-metrics timers/histograms are no-op shells (Timer.Time still calls its function)"],
+    "groups": [
+        {"pkg": "destination", "hdir": "destination", "specs": [
+            spec("C05/writer/write-step", "VerifC05WriteStep"), spec("C05/writer/flush-step", "VerifC05FlushStep"),
+            spec("C05/conn/write", "VerifC05ConnWrite"), spec("C05/conn/handledata", "VerifC05HandleData")]},
+    ],
+}
+
+PROPS["C19"] = {
+    "bounds": "one Ordered call from an arbitrary register state (one-step induction: own register present/absent with any value, one other register), keys 1..3 symbolic bytes; sequences of 3 calls over two 2-byte names; FNV-1a-64 injectivity for distinct names of 1..3 bytes",
+    "outside": "instruction-level interleavings (reduced to: sequential max-register spec + the global mutex being held across the whole compare-and-set and released on every path); 64-bit hash collisions of longer names",
+    "assumptions": ["mutual exclusion by the global mutex + sequential specification imply linearizability to a max-register per name"],
+    "groups": [
+        {"pkg": "validate", "hdir": "validate", "specs": [spec("C19/step", "VerifC19Step"), spec("C19/seq", "VerifC19Seq"), spec("C19/fnv-injective", "VerifC19Injective")]},
+    ],
+}
